@@ -7,7 +7,7 @@ c. index merged and heads normalized before merge_view; merge_operation records 
    (base repo, other repo) in that order
 d. rewrites are recorded for both sides on the default index path
 """
-from jjv.lib import (READ_KINDS, WRITE_KINDS, bodies_with, check_order, fields_touched, find_ok_nodes, name_matches,
+from jjv.lib import (READ_KINDS, WRITE_KINDS, bool_edges, ok_exit_nodes, bodies_with, check_order, fields_touched, find_ok_nodes, name_matches,
                      norm, show, strip, term_calls, term_leaves)
 
 MR = "jj_lib::repo::MutableRepo::"
@@ -40,6 +40,7 @@ def run(ctx):
     rule_b(ctx)
     rule_c(ctx)
     rule_d(ctx)
+    rule_e(ctx)
 
 
 def rule_fields_exist(ctx):
@@ -212,6 +213,53 @@ def rule_c(ctx):
                    f"base/other repos swapped: {show(t1)[:80]} / {show(t2)[:80]}", where=c.where())
 
 
+def rule_e(ctx):
+    """merge_operations: the base of each 3-way operation merge is the closest common ancestor of what the transaction has
+    merged so far (tx.parent_ops()) and the operation being merged next."""
+    F = ctx.F
+    root = "jj_lib::repo::RepoLoader::merge_operations"
+    TMO = "jj_lib::transaction::Transaction::merge_operation"
+    CCA = "jj_lib::op_walk::closest_common_ancestors"
+    bs = bodies_with(F, root, TMO)
+    if not ctx.anchor("C13.e", "RepoLoader::merge_operations body calling Transaction::merge_operation", bs, 1):
+        return
+    b = bs[0]
+    ctx.fn_seen(b.id)
+    sl = F.slicer(b.id)
+    mos = [c for c in b.calls_to(TMO) if c.decl != "futures::Future::poll"]
+    ccas = [c for c in b.calls_to(CCA) if c.decl != "futures::Future::poll"]
+    if not ctx.anchor("C13.e", "closest_common_ancestors calls in merge_operations", ccas, 1):
+        return
+    for c in ccas:
+        a0 = {x[1] for x in term_calls(sl.call_arg(c, 0))}
+        a1 = {x[1] for x in term_calls(sl.call_arg(c, 1))}
+        ok = any(n.endswith("Transaction::parent_ops") for n in a0) and not any(n.endswith("::base_repo") for n in a0) \
+            and any(n.endswith("::index") or n.endswith("::get") for n in a1)
+        ctx.ob("C13.e/ancestor-of-merged-so-far-and-next", root, ok,
+               "closest_common_ancestors(tx.parent_ops(), [operations[index]])" if ok else
+               f"common ancestors are not computed between the operations merged so far (tx.parent_ops()) and the next one: "
+               f"{show(sl.call_arg(c, 0))[:100]}", where=c.where())
+    for c in mos:
+        t1 = sl.call_arg(c, 1)
+        names = {x[1] for x in term_calls(t1)}
+        ok = CCA in names
+        ctx.ob("C13.e/merge-base-is-the-common-ancestor", root, ok,
+               "merge_operation(base = (merge of) closest common ancestors, other_op)" if ok else
+               f"the base passed to merge_operation is not derived from closest_common_ancestors: {show(t1)[:120]}",
+               where=c.where())
+        t0, t2 = sl.call_arg(c, 0), sl.call_arg(c, 2)
+        # cache key agrees with the computation
+    ents = [c for c in b.calls if not c.cleanup and name_matches(c.res or c.decl or "", "re:HashMap::<.*>::entry$")]
+    for c in ents:
+        k = {x[1] for x in term_calls(sl.call_arg(c, 1))}
+        ok = any(n.endswith("Transaction::parent_ops") for n in k) and any(n.endswith("Operation::id") for n in k)
+        ctx.ob("C13.e/ancestor-cache-keyed-by-its-inputs", root, ok,
+               "cache key = (ids of tx.parent_ops(), other_op.id())" if ok else
+               "the closest_common_ancestors cache key does not contain both inputs of the computation: a hit can return "
+               "the ancestors of a different pair", where=c.where())
+    ctx.anchor("C13.e", "ancestor cache entry() calls", ents, 1)
+
+
 def _walk(t):
     from jjv.lib import walk
     return walk(t)
@@ -239,3 +287,38 @@ def rule_d(ctx):
     # each ?-checked
     for c in rr:
         ctx.ob("C13.d/record-rewrites-checked", f"merge_view#{rr.index(c)}", bool(find_ok_nodes(F, b, c)), "?-checked")
+    # unconditional on the default-index branch: every path from the `is_backed_by_default_index() == true` edge to the
+    # added-heads step passes a successful record_rewrites for each side; the other branch removes base\other heads
+    gate = b.calls_to(MR + "is_backed_by_default_index")
+    adds = [c for c in b.calls if not c.cleanup and name_matches(c.res or c.decl or "", "re:view::View::add_head$")]
+    if not ctx.anchor("C13.d", "is_backed_by_default_index gate / add_head in merge_view", min(len(gate), len(adds)), 1):
+        return
+    tr, fa = bool_edges(F, b, gate[0])
+    oks, _, _ = ok_exit_nodes(F, b)
+    dsts = [a.bb for a in adds] + list(oks)
+    for side in ("own", "other"):
+        calls = []
+        for c in rr:
+            pn = _param_names(sl.call_arg(c, 2))
+            s_ = "other" if pn == {"other"} else ("own" if "self" in pn and "other" not in pn and "base" not in pn else "?")
+            if s_ == side:
+                calls.append(c)
+        doms = set()
+        for c in calls:
+            doms |= find_ok_nodes(F, b, c)
+        p = b.path_avoiding(tr, dsts, doms) if tr else [0]
+        ctx.ob("C13.d/rewrites-recorded-unconditionally", f"merge_view|{side}", bool(doms) and p is None,
+               f"every default-index path to the head merge passes record_rewrites(base, {side})?" if doms and p is None else
+               f"record_rewrites(base, {side}) can be skipped on the default-index path: {b.show_path(p)[:6] if p else ''} - "
+               f"rewrites made on that side are then not applied to the other side's descendants/refs")
+    rm = [c for c in b.calls if not c.cleanup and name_matches(c.res or c.decl or "", "re:view::View::remove_head$")]
+    ok = bool(rm) and bool(fa) and all(b.set_dominated(c.bb, set(fa)) for c in rm)
+    srcs = set()
+    for c in rm:
+        for x in term_calls(sl.call_arg(c, 1)):
+            if x[1].endswith("::difference"):
+                srcs.add(tuple(sorted(_param_names(x[2][0]))) + ("-",) + tuple(sorted(_param_names(x[2][1]))))
+    ok = ok and srcs == {("base", "-", "other")}
+    ctx.ob("C13.d/custom-index-removes-heads-removed-by-other", MR + "merge_view", ok,
+           "else-branch: remove_head(h) for h in base.heads() - other.heads()" if ok else
+           f"without the default index, heads removed by the other operation are not removed ({sorted(srcs)})")
